@@ -52,7 +52,9 @@ pub struct ContainerCfg {
 
 #[derive(Clone, Debug, Serialize, Deserialize)]
 pub enum Path {
-    Datum { schema: RS, values: Vec<RV>, validate: bool },
+    /// `bare`: record values are handed over without their `Value::Union` wrapper (the library then
+    /// looks for a union variant that takes the record)
+    Datum { schema: RS, values: Vec<RV>, validate: bool, #[serde(default)] bare: bool },
     /// `perm` != 0: the record schema lists its fields in another order than the Rust type serializes them
     DatumSer { type_id: String, values: Vec<J>, target_block_size: Option<usize>, #[serde(default)] perm: u64 },
     AvroDatumRef { type_id: String, values: Vec<J>, #[serde(default)] perm: u64 },
@@ -156,6 +158,21 @@ fn exec_cont(path: &Path, plan: &SinkPlan) -> Exec {
     let e = exec(path, plan);
     CONT.with(|c| c.set(false));
     e
+}
+
+/// Record values without their `Value::Union` wrapper, at any depth.
+fn strip_record_unions(v: apache_avro::types::Value) -> apache_avro::types::Value {
+    use apache_avro::types::Value as V;
+    match v {
+        V::Union(i, inner) => match strip_record_unions(*inner) {
+            r @ V::Record(_) => r,
+            other => V::Union(i, Box::new(other)),
+        },
+        V::Record(fs) => V::Record(fs.into_iter().map(|(n, x)| (n, strip_record_unions(x))).collect()),
+        V::Array(xs) => V::Array(xs.into_iter().map(strip_record_unions).collect()),
+        V::Map(m) => V::Map(m.into_iter().map(|(k, x)| (k, strip_record_unions(x))).collect()),
+        other => other,
+    }
 }
 
 fn snap(s: &SimSink) -> (usize, usize) {
@@ -281,7 +298,7 @@ fn exec(path: &Path, plan: &SinkPlan) -> Exec {
     let r = guarded(|| {
         let mut rec = Rec { apis: &mut apis };
         match path {
-            Path::Datum { schema, values, validate } => {
+            Path::Datum { schema, values, validate, bare } => {
                 let Some(p) = parse_rs(schema) else {
                     setup_err = Some("schema rejected".to_string());
                     return;
@@ -294,7 +311,10 @@ fn exec(path: &Path, plan: &SinkPlan) -> Exec {
                     }
                 };
                 for v in values {
-                    let v = to_avro(v, schema, &p.defs);
+                    let mut v = to_avro(v, schema, &p.defs);
+                    if *bare {
+                        v = strip_record_unions(v);
+                    }
                     let before = snap(&sink);
                     let r = w.write_value_ref(&mut sink, &v).map_err(|e| e.to_string());
                     let after = snap(&sink);
@@ -615,30 +635,57 @@ fn judge_continuation(path: &Path, reference: &Exec, e: &Exec, plan: &SinkPlan) 
         WriteFaultKind::Other => e.apis[failed].delta == 0,
         _ => false,
     };
-    if !clean || e.apis[failed + 1..].iter().any(|a| !a.ok) || e.apis.last().map(|a| (a.name, a.ok)) != Some(("into_inner", true)) {
+    if !matches!(e.faults[0], WriteFaultKind::FlushErr | WriteFaultKind::Other)
+        || e.apis[failed + 1..].iter().any(|a| !a.ok)
+        || e.apis.last().map(|a| (a.name, a.ok)) != Some(("into_inner", true))
+    {
         return None;
     }
     let api = e.apis[failed].name;
     let fail = |what: &str, detail: String| {
         Some(Failure::new(
             "corrupt-after-reported-error",
-            format!("C13 corrupt-after-reported-error path={kind} what={what} fault={:?}", e.faults[0]),
-            format!("call #{failed} {api} reported the sink's error (the sink's byte stream stayed intact: {:?}); every later call returned Ok, but {detail} (plan {pn})", e.faults[0]),
+            format!("C13 corrupt-after-reported-error path={kind} what={what} fault={:?}{}", e.faults[0], if clean { "" } else { " torn" }),
+            format!(
+                "call #{failed} {api} reported the sink's error ({}: {:?}); every later call returned Ok, but {detail} (plan {pn})",
+                if clean { "the sink's byte stream stayed intact" } else { "part of that call's bytes had been accepted; that torn piece is set aside" },
+                e.faults[0]
+            ),
         ))
     };
     let (schema, groups) = attempted(path)?;
-    let Some(layout) = refimpl::parse_file(&e.data) else {
-        return fail("malformed-file", format!("the {} bytes in the sink are not a well-formed container file", e.data.len()));
+    // What the file should look like to a reader: for a clean refusal the sink's bytes as they are;
+    // otherwise the complete blocks delivered up to the failed call, then what was delivered after it
+    // (the torn piece in between - accepted bytes of an incomplete header or block - is set aside: the
+    // caller knows from the error that it has to be discarded).
+    let cut = e.apis[failed].cum.min(e.data.len());
+    let file: Vec<u8> = if clean {
+        e.data.clone()
+    } else {
+        let (head, tail) = e.data.split_at(cut);
+        match refimpl::parse_file(head) {
+            Some(l) => {
+                let keep = head.len() - l.trailing;
+                let mut f = head[..keep].to_vec();
+                f.extend_from_slice(tail);
+                f
+            }
+            // the header itself was torn: everything has to come again
+            None => tail.to_vec(),
+        }
+    };
+    let Some(layout) = refimpl::parse_file(&file) else {
+        return fail("malformed-file", format!("the {} bytes delivered are not a well-formed container file", file.len()));
     };
     if layout.trailing != 0 || layout.blocks.iter().any(|b| !b.marker_ok) {
-        return fail("malformed-file", "the file has trailing bytes or a block with a wrong marker".to_string());
+        return fail("malformed-file", "what was delivered has trailing bytes or a block with a wrong marker".to_string());
     }
-    match (refimpl::parse_header(&e.data), refimpl::parse_header(&reference.data)) {
+    match (refimpl::parse_header(&file), refimpl::parse_header(&reference.data)) {
         (Some(x), Some(y)) if x.canonical_header() == y.canonical_header() => {}
         _ => return fail("wrong-header", "the header differs from the one a Vec sink receives".to_string()),
     }
     let mut got = vec![];
-    match apache_avro::Reader::builder(&e.data[..]).reader_schema(&schema).build() {
+    match apache_avro::Reader::builder(&file[..]).reader_schema(&schema).build() {
         Err(err) => return fail("unreadable", format!("the file cannot be opened: {err}")),
         Ok(rd) => {
             for item in rd {
@@ -670,6 +717,10 @@ fn continuation_plans(reference: &Exec) -> Vec<SinkPlan> {
     let mut plans = vec![];
     for j in 0..reference.write_calls.min(64) {
         plans.push(SinkPlan { accept: Accept::All, fault: Some(WriteFault { kind: WriteFaultKind::Other, at: j }) });
+    }
+    for j in 0..reference.write_calls.min(24) {
+        // errors in the middle of a piece (3 bytes per call)
+        plans.push(SinkPlan { accept: Accept::Const(3), fault: Some(WriteFault { kind: WriteFaultKind::Other, at: j * 3 + 1 }) });
     }
     for j in 0..reference.flush_calls.min(16) {
         plans.push(SinkPlan { accept: Accept::All, fault: Some(WriteFault { kind: WriteFaultKind::FlushErr, at: j }) });
@@ -791,7 +842,16 @@ impl Property for C13 {
             0..=1 => {
                 let gs = gen_schema(&mut wr, 3, true);
                 let n = wr.range(1, 3) as usize;
-                Path::Datum { values: gen_values(&mut wr, &gs.root, &gs.defs, n), schema: gs.root, validate: wr.chance(1, 2) }
+                if wr.chance(1, 4) {
+                    // a union of same-shaped records, values handed over as bare records
+                    let rec = |name: &str| RS::Record { full: name.to_string(), style: crate::gen::NameStyle::Inherit, fields: vec![("id".into(), RS::Long), ("by".into(), RS::String)] };
+                    let u = RS::Union(vec![rec("Created"), rec("Deleted"), RS::Null]);
+                    let schema = if wr.chance(1, 2) { u } else { RS::Record { full: "Event".into(), style: crate::gen::NameStyle::Inherit, fields: vec![("seq".into(), RS::Int), ("what".into(), u)] } };
+                    let defs = crate::gen::defs_of(&schema);
+                    Path::Datum { values: gen_values(&mut wr, &schema, &defs, n), schema, validate: wr.chance(1, 2), bare: true }
+                } else {
+                    Path::Datum { values: gen_values(&mut wr, &gs.root, &gs.defs, n), schema: gs.root, validate: wr.chance(1, 2), bare: wr.chance(1, 4) }
+                }
             }
             2 => {
                 let id = *wr.pick(&corpus::IDS);
@@ -1026,16 +1086,16 @@ impl Property for C13 {
         // 3. drop operations / values
         let mut push = |path: Path| out.push(Case { path, only: case.only.clone(), cont_only: case.cont_only.clone() });
         match &case.path {
-            Path::Datum { schema, values, validate } => {
+            Path::Datum { schema, values, validate, bare } => {
                 for i in 0..values.len() {
                     if values.len() > 1 {
                         let mut v = values.clone();
                         v.remove(i);
-                        push(Path::Datum { schema: schema.clone(), values: v, validate: *validate });
+                        push(Path::Datum { schema: schema.clone(), values: v, validate: *validate, bare: *bare });
                     }
                 }
                 for (s2, v2) in shrink_schema_values(schema, values) {
-                    push(Path::Datum { schema: s2, values: v2, validate: *validate });
+                    push(Path::Datum { schema: s2, values: v2, validate: *validate, bare: *bare });
                 }
             }
             Path::DatumSer { type_id, values, target_block_size, perm } => {
@@ -1148,7 +1208,7 @@ impl Property for C13 {
                 "finish": cfg.finish, "ops": ops.iter().map(|o| match o { COp::AppendValueRef(_) => "append_value_ref", COp::AppendValue(_) => "append_value", COp::Unvalidated(_) => "unvalidated_append", COp::ExtendFromSlice(_) => "extend_from_slice", COp::Extend(_) => "extend", COp::Flush => "flush" }).collect::<Vec<_>>(),
                 "fault_space": "6 accept policies + one fault at every sink call index x {Other, Interrupted, WriteZero, Ok(0)} + flush errors + disk-full offsets"
             }),
-            Path::Datum { schema, values, validate } => json!({"path": "datum", "schema": crate::gen::to_json(schema), "values": values.len(), "validate": validate}),
+            Path::Datum { schema, values, validate, bare } => json!({"path": "datum", "schema": crate::gen::to_json(schema), "values": values.len(), "validate": validate, "bare_records_for_unions": bare}),
             other => json!({"path": other.kind(), "case": serde_json::to_value(other).unwrap()}),
         }
     }
